@@ -313,7 +313,7 @@ def r1(cx):
                          'invalid' % (name, s['seed'], s['why']), loc=body.loc(t))
         else:
             n_ok += 1
-    cx.floor(n_ok, 3, 'sanitised writes (escape structure / validated class name)')
+    cx.floor(n_ok, 1, 'sanitised writes (escape structure / validated class name)')
     cx.sample({'sanitised': ['%s<-%s:%s' % (pp.callee(s['term']).split('::')[-1], s['seed'], s['status']) for s in sites]})
     # the regex writer is handed only to functions of this module; pattern text is written nowhere else
     for body in F.bodies_in(['yash_fnmatch::']):
